@@ -439,3 +439,110 @@ def shared(ctx, prefix, rule_fn, *args, why=""):
                     d[r] = old[r]
                     val = val - old[r]
                 d[f"{prefix}/{r}"] = (f"(shared: {why}) " + val) if d is ctx.rule_text and why else val
+
+
+# ---- metadata round trip: Image(img, **image.metadata()) reproduces the metadata -------------------------------------------------------
+
+META_ACCEPT = {
+    "origin": lambda t, tok: t in (tok, f"darsia.Coordinate({tok})", f"darsia.Coordinate(np.array({tok}))", f"darsia.Coordinate(np.asarray({tok}))"),
+}
+
+
+def rule_metadata_roundtrip(ctx, R):
+    """Every derived image in the package is built as type(x)(array, **x.metadata()) (sub-images, time slices, corrections, reductions,
+    analysis results, readers): the physical metadata survives only if the constructor keeps every entry it is passed and metadata() hands
+    every entry back.  Image / ScalarImage / OpticalImage are folded path-wise: constructor on one opaque token per metadata key, then
+    metadata() on the object that leaves; each key must come back as the token that went in (dimensions as an equal list, the origin
+    wrapped as a Coordinate)."""
+    from ..fold import Folder, Obj, Opaque, Raised, Refuse, Sym, fold_paths
+    from ..terms import nf
+
+    ctx.rule(R, "metadata round trip: for Image, ScalarImage and OpticalImage (single and series), folding the constructor on one token per "
+             "metadata key and then metadata() on the resulting object returns every key with the token that was passed -- a constructor that "
+             "drops or recomputes an entry (a relative time re-derived from the dates), or a metadata() that omits one, changes the time stamp "
+             "/ placement of every sub-image, slice, corrected image and analysis result, all of which are built as type(x)(array, **x.metadata())")
+    m = ctx.model
+    IMGM = "darsia.image.image"
+    ctx.consult(IMGM)
+    d = 2
+    for cname in ("Image", "ScalarImage", "OpticalImage"):
+        k = m.cls(IMGM, cname)
+        init, meta = m.method(k, "__init__"), m.method(k, "metadata")
+        for series in (False, True):
+            ctx.instance(R)
+            label = f"{cname}({'series' if series else 'single image'})"
+
+            def run(decide, cname=cname, series=series, init=init, meta=meta):
+                keys = ["date", "reference_date", "time", "name", "origin"]
+                kw = {kk: Opaque("meta", kk.upper()) for kk in keys}
+                kw.update({"space_dim": d, "indexing": "ijk"[:d], "series": series, "dimensions": [Opaque("float", f"D{i}") for i in range(d)]})
+                if cname == "Image":
+                    kw["scalar"] = True
+                if cname == "OpticalImage":
+                    kw["color_space"] = "RGB"
+                shape = [Opaque("int", f"N{i}") for i in range(d + (1 if series else 0))] + ([3] if cname == "OpticalImage" else [])
+                img = Opaque("ndarray", "IMG", {"shape": tuple(shape), "dtype": Opaque("dtype", "DT")})
+                so = Obj("self", {"__class__": cname})
+                fo = Folder(symbolic=True)
+                fo.decider = decide
+                fo.func_stack.append(init.node)
+                fo.fold_all_methods = True
+                fo.overrides = {"warn": lambda a, k_: None, "logger.debug": lambda a, k_: None, "warnings.warn": lambda a, k_: None}
+                fo.call(init.node, [so, img], dict(kw))
+                fo2 = Folder(symbolic=True)
+                fo2.decider = decide
+                fo2.func_stack.append(meta.node)
+                fo2.fold_all_methods = True
+                r = fo2.call(meta.node, [so])
+                while isinstance(r, Sym) and r.fn in ("copy.copy", "copy.deepcopy", "dict") and len(r.args) == 1:
+                    r = r.args[0]
+                return r, kw
+            try:
+                paths = fold_paths(run, max_paths=32)
+            except Refuse as e:
+                ctx.ob(R, init.qname, f"{label}: constructor and metadata() fold", False, f"fold not found to be possible: {e}", init.node)
+                continue
+            done = 0
+            problems, undecided = [], []
+            for log, r, err in paths:
+                if err is not None:
+                    if isinstance(err, Raised) and err.name == "AssertionError":
+                        continue   # a path on which the constructor rejects its input
+                    undecided.append(f"path ends in {err!r}")
+                    continue
+                md, kw = r
+                if not isinstance(md, dict):
+                    undecided.append(f"metadata() returns {nf(md)[:80]}")
+                    continue
+                done += 1
+                where = ("on the path " + " and ".join(("" if b else "not ") + nf(c)[:50] for c, b in log[-2:])) if log else "on every path"
+                for kk, tok in kw.items():
+                    if kk not in md:
+                        problems.append((meta, f"metadata() has no entry '{kk}' {where}, although the constructor was given one: every image rebuilt from the metadata loses it"))
+                        continue
+                    v = md[kk]
+                    if v is tok or (not isinstance(tok, (Opaque, list)) and v == tok):
+                        continue
+                    if isinstance(tok, list) and isinstance(v, list) and len(v) == len(tok) and all(a is b for a, b in zip(v, tok)):
+                        continue
+                    t = nf(v)
+                    tk = nf(tok)
+                    if kk in META_ACCEPT and isinstance(tok, Opaque) and META_ACCEPT[kk](t, tk):
+                        continue
+                    if isinstance(tok, Opaque) and tk not in t:
+                        problems.append((init, f"'{kk}' comes back as {t[:90]} {where}: the value passed to the constructor is not kept"))
+                    else:
+                        undecided.append(f"'{kk}' comes back as {t[:90]}")
+            if problems:
+                seen = set()
+                for fn, msg in problems:
+                    if msg in seen:
+                        continue
+                    seen.add(msg)
+                    ctx.ob(R, fn.qname, f"{label}: every metadata entry passed to the constructor comes back from metadata()", False, msg, fn.node, evidence=True)
+            elif undecided or not done:
+                ctx.ob(R, init.qname, f"{label}: every metadata entry passed to the constructor comes back from metadata()", False,
+                       "round trip not found to be decidable: " + "; ".join(undecided[:3]), init.node)
+            else:
+                ctx.ob(R, init.qname, f"{label}: every metadata entry passed to the constructor comes back from metadata()", True, "", init.node)
+    ctx.floor(R, 6)
